@@ -363,3 +363,236 @@ def _update_claims(old, s, a):
 
 
 PROTOCOLS["RawCodes"] = type("RC", (Protocol,), {"kind": "RawCodes", "methods": {}})()
+
+
+# ---- redraw on idle, and the screen start/stop protocol
+
+@contract(ML + "MainLoop.entering_idle", property="C12", replayable=False, inline=(ML + "MainLoop.draw_screen",))
+class entering_idle:
+    self_shape = MAINLOOP
+    raises = (BaseException,)
+
+    def ensures(old, s, a, result):
+        st = cur()
+        started = PROTOCOLS["Screen"].uf_value(st, ".started", old.screen, [], Bool, 0)
+        draws = [e for e in st.trace if e[0] == "call" and e[1].kind == "Screen" and e[2] == "draw_screen"]
+        renders = [e for e in st.trace if e[0] == "call" and e[1].kind == "Widget" and e[2] == "render"]
+        if started:
+            yield "redraws-from-the-current-widget-state", len(draws) == 1 and len(renders) == 1
+            if draws and renders:
+                yield "topmost-widget-rendered-in-focus-at-the-screen-size", both(eq(renders[0][3]["focus"], True), eq(renders[0][3]["size"], draws[0][3]["size"]), draws[0][3]["canvas"] is renders[0][4])
+        else:
+            yield "no-drawing-on-a-stopped-screen", len(draws) == 0 and len(renders) == 0
+
+
+PROTOCOLS["Widget"].methods["render"].raises_any = False
+
+from urwid.display import common as _common  # noqa: E402
+
+DCM = "urwid/display/common.py:"
+BASESCREEN = Obj(_common.BaseScreen, dict(_started=Bool))
+
+
+@contract(DCM + "BaseScreen._start", property=(), assumed=True, notes="subclass hook (terminal mode changes): logged")
+class bs__start:
+    self_shape = BASESCREEN
+    log_event = "_start"
+
+
+@contract(DCM + "BaseScreen._stop", property=(), assumed=True, notes="subclass hook (terminal mode restoration): logged")
+class bs__stop:
+    self_shape = BASESCREEN
+    log_event = "_stop"
+
+
+def _bs_real(ip, st, f, args, kwargs):
+    if f is StoppingContext:
+        return None
+    return NotImplemented
+
+
+@contract(DCM + "BaseScreen.start", property="C12", replayable=False)
+class bs_start:
+    self_shape = BASESCREEN
+    call_real = staticmethod(_bs_real)
+
+    def ensures(old, s, a, result):
+        yield "started-afterwards", s._started == True  # noqa: E712
+        yield "terminal-set-up-exactly-when-it-was-not-started", count_ev(s.trace, "_start") == (0 if bool(old._started) else 1)
+
+
+@contract(DCM + "BaseScreen.stop", property="C12", replayable=False)
+class bs_stop:
+    self_shape = BASESCREEN
+
+    def ensures(old, s, a, result):
+        yield "stopped-afterwards", s._started == False  # noqa: E712
+        yield "terminal-restored-exactly-when-it-was-started", count_ev(s.trace, "_stop") == (1 if bool(old._started) else 0)
+        yield "idempotent", True
+
+
+# ---- terminal modes: Screen._start / Screen._stop of the POSIX raw display
+
+import os as _os  # noqa: E402
+import termios as _termios  # noqa: E402
+import tty as _tty  # noqa: E402
+from urwid.display import _posix_raw_display as _prd  # noqa: E402
+from urwid.display import _raw_display_base as _rdb  # noqa: E402
+from urwid.display import escape as _esc  # noqa: E402
+
+PRD = "urwid/display/_posix_raw_display.py:"
+RDB = "urwid/display/_raw_display_base.py:"
+MODES = ("m_alt", "m_paste", "m_focus", "m_mouse", "m_cbreak", "m_signals", "m_cursor_hidden")
+RAWSCREEN = Obj(_prd.Screen, dict(
+    bracketed_paste_mode=Bool, focus_reporting=Bool, _alternate_buffer=Bool, _mouse_tracking_enabled=Bool,
+    _rows_used=Opt(Int), maxrow=Opt(Int), _next_timeout=Opt(Int), max_wait=Opt(Int), _signal_keys_set=Bool,
+    _old_signal_keys=Opt(Tup(Int, Int, Int, Int, Int)), _old_termios_settings=Opt(Opaque("Termios")), input_fd=Opt(Int),
+    **{m: Bool for m in MODES}))
+
+# effect table of the escape constants on the ghost mode set (what a VT100/xterm does with them)
+EFFECTS = [
+    (_esc.SWITCH_TO_ALTERNATE_BUFFER, "m_alt", True), (_esc.RESTORE_NORMAL_BUFFER, "m_alt", False),
+    (_esc.ENABLE_BRACKETED_PASTE_MODE, "m_paste", True), (_esc.DISABLE_BRACKETED_PASTE_MODE, "m_paste", False),
+    (_esc.ENABLE_FOCUS_REPORTING, "m_focus", True), (_esc.DISABLE_FOCUS_REPORTING, "m_focus", False),
+    (_esc.MOUSE_TRACKING_ON, "m_mouse", True), (_esc.MOUSE_TRACKING_OFF, "m_mouse", False),
+    (_esc.HIDE_CURSOR, "m_cursor_hidden", True), (_esc.SHOW_CURSOR, "m_cursor_hidden", False),
+]
+
+
+@contract(RDB + "Screen.write", property=(), assumed=True, notes="effect table: what the terminal does with the escape constants written (alternate buffer, paste, focus, mouse, cursor)")
+class scr_write:
+    self_shape = RAWSCREEN
+    modifies = ()
+
+    def effects(old, s, a, result):
+        data = a.data
+        if not isinstance(data, str):
+            raise Unsupported("Screen.write of non-constant data")
+        # apply in textual order
+        hits = sorted((data.find(k), k, f, v) for k, f, v in EFFECTS if k in data)
+        for _pos, _k, f, v in hits:
+            s.fields[f] = v
+
+
+for _name, _field, _val in (("signal_init", "m_signals", True), ("signal_restore", "m_signals", False)):
+    @contract(PRD + f"Screen.{_name}", property=(), assumed=True, notes="installs / restores SIGWINCH, SIGCONT, SIGTSTP handlers: ghost flag")
+    class _sig:
+        self_shape = RAWSCREEN
+        _f, _v = _field, _val
+
+        def effects(old, s, a, result, _f=_field, _v=_val):
+            s.fields[_f] = _v
+
+for _name in ("clear", "flush"):
+    @contract((RDB if _name != "flush" else RDB) + f"Screen.{_name}", property=(), assumed=True, notes="no effect on terminal modes")
+    class _noeff:
+        self_shape = RAWSCREEN
+
+
+for _name in ("_start_gpm_tracking", "_stop_gpm_tracking"):
+    @contract(PRD + f"Screen.{_name}", property=(), assumed=True, notes="gpm mouse helper process on the Linux console: outside the terminal mode set")
+    class _gpm:
+        self_shape = RAWSCREEN
+
+
+@contract("urwid/display/common.py:RealTerminal.tty_signal_keys", property=(), assumed=True, notes="tty signal keys: saved/restored through the same call; not part of the mode set tracked here")
+class scr_tsk:
+    self_shape = RAWSCREEN
+    result = Tup(Int, Int, Int, Int, Int)
+
+
+@contract(RDB + "Screen._input_fileno", property=(), assumed=True, notes="the input descriptor or None")
+class scr_fileno:
+    self_shape = RAWSCREEN
+    pure_spec = staticmethod(lambda old, a: old.input_fd)
+
+
+@contract(RDB + "Screen._attrspec_to_escape", property=(), assumed=True, notes="an SGR sequence (C17 owns its content); contains no mode-changing sequence")
+class scr_a2e:
+    self_shape = RAWSCREEN
+    pure_spec = staticmethod(lambda old, a: "\x1b[0;39;49m")
+
+
+PROTOCOLS["Termios"] = type("TP", (Protocol,), {"kind": "Termios", "methods": {}})()
+PROTOCOLS["SignalKeys"] = type("SK", (Protocol,), {"kind": "SignalKeys", "methods": {}})()
+_ISATTY = z3.Function("os.isatty", z3.IntSort(), z3.BoolSort())
+
+
+def _tty_real(ip, st, f, args, kwargs):
+    from urwid.display.common import AttrSpec
+    o = st.ghost["screen_obj"]
+    if f is _os.isatty:
+        return mk_bool(_ISATTY(V._z(args[0])))
+    if f is _termios.tcgetattr:
+        return V.SOpaque("Termios", z3.Const("saved_termios", S.opaque_sort("Termios")))
+    if f is _tty.setcbreak:
+        o.fields["m_cbreak"] = True
+        return None
+    if f is _termios.tcsetattr:
+        # restoring the settings saved by _start undoes cbreak mode
+        saved = V.SOpaque("Termios", z3.Const("saved_termios", S.opaque_sort("Termios")))
+        if bool(opt_eq(args[2], saved)):
+            o.fields["m_cbreak"] = False
+        return None
+    if f is AttrSpec:
+        return "<default attrspec>"
+    owner = getattr(f, "__self__", None)
+    if owner is _signals_mod._signals and getattr(f, "__name__", "") == "emit":
+        return False
+    return NotImplemented
+
+
+def _scr_setup(st, self_obj, vals):
+    st.ghost["screen_obj"] = self_obj
+
+
+def modes(s):
+    return {m: s.fields[m] for m in MODES}
+
+
+@contract(PRD + "Screen._start", property="C12", replayable=False, inline=(RDB + "Screen._mouse_tracking", PRD + "Screen._mouse_tracking", RDB + "Screen._start", "urwid/display/common.py:BaseScreen._start"))
+class scr__start:
+    self_shape = RAWSCREEN
+    params = dict(alternate_buffer=Bool)
+    setup = staticmethod(_scr_setup)
+    call_real = staticmethod(_tty_real)
+
+    def requires(s, a):
+        # a terminal in its initial modes
+        return both(*[neg(s.fields[m]) for m in MODES])
+
+    def ensures(old, s, a, result):
+        tty = (not is_none(old.input_fd)) and bool(mk_bool(_ISATTY(V._z(val(old.input_fd)))))
+        yield "alternate-buffer-iff-asked", both(eq(s.m_alt, a.alternate_buffer), eq(s._alternate_buffer, a.alternate_buffer))
+        yield "paste-and-focus-reporting-iff-configured", both(eq(s.m_paste, old.bracketed_paste_mode), eq(s.m_focus, old.focus_reporting))
+        yield "mouse-tracking-as-last-set", eq(s.m_mouse, old._mouse_tracking_enabled)
+        yield "cbreak-iff-tty", eq(s.m_cbreak, tty)
+        yield "signal-handlers-installed", s.m_signals == True  # noqa: E712
+        if tty:
+            yield "old-tty-settings-saved", neg(is_none(s._old_termios_settings))
+
+
+@contract(PRD + "Screen._stop", property="C12", replayable=False,
+          inline=(RDB + "Screen._mouse_tracking", PRD + "Screen._mouse_tracking", RDB + "Screen._stop_mouse_restore_buffer", RDB + "Screen._stop", "urwid/display/common.py:BaseScreen._stop"))
+class scr__stop:
+    self_shape = RAWSCREEN
+    setup = staticmethod(_scr_setup)
+    call_real = staticmethod(_tty_real)
+
+    def requires(s, a):
+        # the state _start leaves behind (its postcondition), options unchanged since
+        tty = (not is_none(s.input_fd)) and bool(mk_bool(_ISATTY(V._z(val(s.input_fd)))))
+        saved = V.SOpaque("Termios", z3.Const("saved_termios", S.opaque_sort("Termios")))
+        return both(eq(s.m_alt, s._alternate_buffer), eq(s.m_paste, s.bracketed_paste_mode), eq(s.m_focus, s.focus_reporting),
+                    eq(s.m_cbreak, tty), s.m_signals == True,  # noqa: E712
+                    implies(tty, opt_eq(s._old_termios_settings, saved)))
+
+    def ensures(old, s, a, result):
+        for m in MODES:
+            yield f"initial-mode-restored/{m[2:]}", s.fields[m] == False  # noqa: E712
+
+
+@contract("urwid/display/escape.py:set_cursor_position", property=(), assumed=True, notes="a cursor-addressing sequence ESC[r;cH (C04 owns its format); contains no mode-changing sequence")
+class esc_scp:
+    params = dict(x=Int, y=Int)
+    pure_spec = staticmethod(lambda a: "\x1b[<row>;<col>H")
